@@ -505,6 +505,21 @@ def rewrite_body(body, log, r14=None, mut_refs=None):
         return '%s.vx_incr();' % mo.group(2)
     body = re.sub(r'\{\s*let\s+mut\s+(\w+)\s*=\s*([a-z_][\w.]*)\.write\(\)\.unwrap\(\);\s*\*\1\s*\+=\s*1;\s*\}', r22, body)
 
+    # R24 -- hash-map entry idioms on the opaque repetition map (hashbrown's Entry API takes FnOnce(&mut V)
+    # closures, outside Verus):
+    #   M.entry(K).and_modify(|c| *c += D).or_insert(V);  ->  M.vx_entry_add_or_insert(K, D, V);
+    #   M.entry(K).and_modify(|c| *c -= D);               ->  M.vx_entry_sub(K, D);
+    # Semantic content (documented behaviour of `Entry::and_modify` / `or_insert`): if K is present its value is
+    # modified in place by the closure, otherwise (first form) V is inserted / (second form) nothing happens.
+    def r24a(mo):
+        log.append('R24')
+        return '%s.vx_entry_add_or_insert(%s, %s, %s);' % (mo.group(1), mo.group(2).strip(), mo.group(4), mo.group(5).strip())
+    body = re.sub(r'\b([a-z_][\w.]*?)\s*\.entry\(([^()]*(?:\([^()]*\))?[^()]*)\)\s*\.and_modify\(\|(\w+)\|\s*\*\3\s*\+=\s*(\d+)\)\s*\.or_insert\(([^()]*)\);', r24a, body)
+    def r24b(mo):
+        log.append('R24')
+        return '%s.vx_entry_sub(%s, %s);' % (mo.group(1), mo.group(2).strip(), mo.group(4))
+    body = re.sub(r'\b([a-z_][\w.]*?)\s*\.entry\(([^()]*(?:\([^()]*\))?[^()]*)\)\s*\.and_modify\(\|(\w+)\|\s*\*\3\s*-=\s*(\d+)\);', r24b, body)
+
     # R23 -- legacy integer-module constants: `std::i16::MIN` is by definition `i16::MIN`
     def r23(mo):
         log.append('R23')
@@ -614,7 +629,7 @@ def rewrite_sig(head, ret_name, log):
 
 def rewrite_item(text, log):
     """R3/R6/R11/R12/R13 on non-function items."""
-    text, n = re.subn(r'\bFxHashMap<u64,\s*u8>', 'PositionCountMap', text)
+    text, n = re.subn(r'\bFxHashMap<\(u64,\s*u8\),\s*u8>', 'PositionCountMap', text)
     log.extend(['R13'] * n)
     text, n = re.subn(r'\bFxHashMap<\(u8,\s*u64\),\s*Bitboard>', 'AttackCacheMap', text)
     log.extend(['R13'] * n)
